@@ -3,6 +3,7 @@
 import json, os, sys
 HERE = os.path.dirname(os.path.abspath(__file__))
 sys.path.insert(0, HERE)
+sys.path.insert(0, os.path.join(HERE, "lib"))
 import importlib
 from checks.registry import NOT_APPLICABLE, HOOK_COMMITS
 CHECKS = {}
